@@ -40,6 +40,11 @@ pub enum C04Case {
         #[serde(default)]
         size_overrides: Vec<(u8, u64)>,
     },
+    /// a package with `count` files in one directory and an archive of `count` entries:
+    /// kind 0 one hard-link set (nlink = count, header sizes 1, data only with the last entry), 1 empty files, 2 one-byte files,
+    /// 3 every entry carrying the name of the first file, 4 stripped (index-only) entries,
+    /// 5 names the header does not list, 6 directories
+    Many { count: u32, kind: u8 },
 }
 
 const OFFSET_SELS: u8 = 8;
@@ -152,6 +157,38 @@ impl C04Case {
                 }
                 main.extend(fe);
                 let payload = crate::refimpl::cpio::write_archive(archive);
+                filepkg::wrap(main, payload, true).encode()
+            }
+            C04Case::Many { count, kind } => {
+                let one = matches!(kind, 0 | 2);
+                let files: Vec<ModelFile> = (0..*count)
+                    .map(|i| ModelFile { dir: "/d/".into(), base: format!("f{i:07}"), mode: if *kind == 6 { 0o040755 } else { 0o100644 }, mtime: 1, flags: 0, user: "root".into(), group: "root".into(), linkto: String::new(), content: if one { vec![b'x'] } else { vec![] } })
+                    .collect();
+                let mut archive: Vec<CpioSpec> = files
+                    .iter()
+                    .enumerate()
+                    .map(|(i, f)| match kind {
+                        4 => CpioSpec::stripped(i as u32, f.content.clone()),
+                        _ => {
+                            let name = match kind {
+                                3 => files[0].cpio_name(),
+                                5 => format!("./zz/{i}"),
+                                _ => f.cpio_name(),
+                            };
+                            // hard-link set as rpm lays it out: every link has an entry, only the last carries the data
+                            let data = if *kind == 0 && i + 1 != *count as usize { vec![] } else { f.content.clone() };
+                            let mut e = CpioSpec::newc(&name, f.mode as u32, if *kind == 0 { 7 } else { i as u32 + 1 }, data);
+                            if *kind == 0 {
+                                e.nlink = *count;
+                            }
+                            e
+                        }
+                    })
+                    .collect();
+                archive.push(CpioSpec::trailer());
+                let mut main = filepkg::basic_entries("many");
+                main.extend(filepkg::file_entries(&files, *kind == 4));
+                let payload = crate::refimpl::cpio::write_archive(&archive);
                 filepkg::wrap(main, payload, true).encode()
             }
         }
@@ -612,6 +649,16 @@ impl Property for C04 {
             cases: tier.pick(40_000, 600_000),
             strat: Arc::new(|| mutated_pool(300_000, 4).prop_map(C04Case::Pkg).boxed()),
         });
+        // long runs of archive entries of one kind: whatever the reader does per entry (skip,
+        // recurse, buffer) is repeated tens of thousands of times (cases run on a 2 MiB stack)
+        let counts: Vec<u32> = if tier == Tier::Thorough { vec![2_000, 30_000, 120_000] } else { vec![2_000, 30_000] };
+        let nc = counts.len() as u64;
+        v.push(Phase::Enumerate {
+            name: "many-entries",
+            total: nc * 7,
+            exhaustive: false,
+            gen: Arc::new(move |i| if i < nc * 7 { Some(C04Case::Many { count: counts[(i % nc) as usize], kind: (i / nc) as u8 }) } else { None }),
+        });
         v.push(Phase::Random {
             name: "hostile-cpio",
             cases: tier.pick(30_000, 400_000),
@@ -661,6 +708,7 @@ impl Property for C04 {
             C04Case::Intro { .. } => "intro",
             C04Case::Subst { .. } => "subst",
             C04Case::Cpio { .. } => "cpio",
+            C04Case::Many { .. } => "many-entries",
         });
         let x = case.bytes();
         judge(&x, &mut o);
